@@ -6,6 +6,16 @@ from .ast import is_log_block
 
 # named scalar constants of the crate being rendered (set by lib/nf.area_nf / lib/machine.tokenizer_tables): uses are replaced by the value
 CONSTS = {}
+# private helpers that are not in the reviewed reference (name -> AST item): a call without arguments is rendered as its body
+INLINE = {}
+
+
+def _inl(e):
+    if e.get("k") == "MethodCall" and e["m"] in INLINE and not e["args"] and e["recv"].get("k") == "Path" and e["recv"]["path"] == "self":
+        return INLINE[e["m"]]
+    if e.get("k") == "Call" and not e["args"] and e["f"].get("k") == "Path" and e["f"]["path"].split("::")[-1] in INLINE and e["f"]["path"].split("::")[0] in ("Self", "self", e["f"]["path"]):
+        return INLINE[e["f"]["path"].split("::")[-1]]
+    return None
 
 
 def _pat_names(p, out):
@@ -83,6 +93,10 @@ def render(body_or_expr, params=(), subst=None, show=None, prefix="p"):
             elif k == "ExprStmt":
                 if s["e"].get("k") == "Block" and is_log_block(s["e"]):
                     continue
+                it = _inl(s["e"])
+                if it is not None and s.get("semi"):
+                    out.append(blk(it["body"]))
+                    continue
                 out.append(ex(s["e"]) + (";" if s.get("semi") else ""))
             elif k == "ItemStmt":
                 itn = s["item"]
@@ -109,6 +123,8 @@ def render(body_or_expr, params=(), subst=None, show=None, prefix="p"):
             return repr(e["v"])
         if k == "Field":
             return ex(e["e"]) + "." + e["name"]
+        if k in ("MethodCall", "Call") and _inl(e) is not None:
+            return "{%s}" % blk(_inl(e)["body"])
         if k == "MethodCall":
             if e["m"] in ("parse_error", "emit_error", "expect") and e["args"]:
                 return "%s.%s(_)" % (ex(e["recv"]), e["m"])
